@@ -340,6 +340,11 @@ func verifyFunction(P *Program, db *SpecDB, ti *TypeInfo, fn *ssa.Function, c *C
 		}
 	}
 	// call-site assertions whose call site was not found
+	for _, key := range sortedKeys(c.CallInvariants) {
+		if !c.callSeen[key] {
+			e.unsupportedf("call-site invariant: no call site %s with an effects() callee in %s", key, fn)
+		}
+	}
 	for _, key := range sortedKeys(c.CallAsserts) {
 		if !c.callSeen[key] {
 			e.unsupportedf("call-site assertion: no call site %s in %s (call removed or renumbered?)", key, fn)
